@@ -24,7 +24,7 @@ from . import exprsem, relmodel
 from .relmodel import Tab
 from .symx import SymInt, Skip, zint
 
-UNARY = ("calc", "proj", "sel", "dedup", "sort", "slice", "mat", "xfer", "tag", "proc")
+UNARY = ("calc", "proj", "sel", "dedup", "sort", "slice", "mat", "xfer", "tag", "proc", "cust")
 
 
 @dataclasses.dataclass(frozen=True)
@@ -60,9 +60,10 @@ class Env:
         self.symbolic = symbolic  # wrap integer constants as SymInt (hash rule, DESIGN 2.2)
 
         self.tags = tags or mk_tags()
+        HEngine = harness_engine_class()
         self.engines = {
-            "it1": iteration.Engine(name="it1"),
-            "it2": iteration.Engine(name="it2"),
+            "it1": HEngine(name="it1"),
+            "it2": HEngine(name="it2"),
             "sq": sql.Engine(name="sq"),
         }
         import operator
@@ -124,15 +125,16 @@ class Env:
         self.tables[name] = relmodel.leaf_concrete([{c: zint(r[c]) for c in cols} for r in rows], cols)
         return rel
 
-    def add_sql_leaf(self, name, cols, n, min_rows=0, max_rows=None, table=None):
-        """SQL leaf over a sqlalchemy Table; oracle table has n symbolic slots (unordered)."""
+    def add_sql_leaf(self, name, cols, n, min_rows=0, max_rows=None, table=None, extra=()):
+        """SQL leaf over a sqlalchemy Table; oracle table has n symbolic slots (unordered).  `extra`: columns the table (and the
+        payload's columns_available) offers beyond the relation's own columns."""
         import sqlalchemy as sa
         from lsst.daf.relation import sql
 
         if self.metadata is None:
             self.metadata = sa.MetaData()
         tags = [self.tags[c] for c in cols]
-        ca = {t: sa.Column(t.qualified_name, sa.Integer) for t in tags}
+        ca = {self.tags[c]: sa.Column(c, sa.Integer) for c in tuple(cols) + tuple(extra)}
         tbl = sa.Table(name, self.metadata, *ca.values())
         rel = self.engines["sq"].make_leaf(
             frozenset(tags), payload=sql.Payload(from_clause=tbl, columns_available=ca), name=name,
@@ -194,8 +196,52 @@ def expression_history(env, *nodes):
                 pass
 
 
-_OPS = ("leaf", "calc", "proj", "sel", "dedup", "sort", "slice", "chain", "join", "mat", "xfer", "tag", "proc")
+_OPS = ("leaf", "calc", "proj", "sel", "dedup", "sort", "slice", "chain", "join", "mat", "xfer", "tag", "proc", "cust")
 _USER_MARKER = []
+_USER_FILTER = []
+_HENGINE = []
+
+
+def user_filter_class():
+    """A user-defined RowFilter (documented extension point of UnaryOperation) that keeps every row."""
+    if not _USER_FILTER:
+        from lsst.daf.relation import RowFilter
+
+        @dataclasses.dataclass(frozen=True)
+        class KeepAll(RowFilter):
+            def __str__(self):
+                return "keepall"
+
+            @property
+            def is_empty_invariant(self):
+                return True
+
+            @property
+            def is_order_dependent(self):
+                return False
+
+            def applied_min_rows(self, target):
+                return target.min_rows
+
+        _USER_FILTER.append(KeepAll)
+    return _USER_FILTER[0]
+
+
+def harness_engine_class():
+    """iteration.Engine with the documented hook for custom unary operations implemented the way its docstring suggests
+    ("typically [the target] will be passed to execute and the result used to construct a new RowIterable")."""
+    if not _HENGINE:
+        from lsst.daf.relation import iteration
+
+        class HEngine(iteration.Engine):
+            def apply_custom_unary_operation(self, operation, target):
+                if isinstance(operation, user_filter_class()):
+                    return self.execute(target)
+                return super().apply_custom_unary_operation(operation, target)
+
+        _HENGINE.append(HEngine)
+    return _HENGINE[0]
+
 
 
 def user_marker_class():
@@ -212,6 +258,7 @@ def user_marker_class():
     return _USER_MARKER[0]
 
 HISTORY = not os.environ.get("VERIF_NO_HISTORY")
+DECLARED_COLS = {}  # leaf name -> the relation's own columns, for leaves whose table / payload offers more (sqlprogs' W)
 CURRENT_DECOYS = {}  # id(decoy LeafRelation) -> object, of the Env that built last (read by pytree)
 
 
@@ -336,6 +383,8 @@ def _build(node, env, memo):
         r = build(node[1], env, memo).transferred_to(env.engines[node[2]])
     elif op == "tag":
         r = user_marker_class()(target=build(node[1], env, memo))
+    elif op == "cust":
+        r = user_filter_class()().apply(build(node[1], env, memo))
     elif op == "proc":
         # the child tree as returned by an earlier Processor.process (transfers carry payloads; lazy ones where the hook may)
         r = env.processor().process(build(node[1], env, memo))
@@ -368,8 +417,11 @@ def _sem_seq(node, env, prefer):
     bind = env.bind
     sqlm = getattr(env, "sql_mode", False)
     if op == "leaf":
-        return env.tables[node[1]]
-    if op in ("mat", "xfer", "tag", "proc"):
+        t = env.tables[node[1]]
+        if node[1] in DECLARED_COLS and set(t.cols) != set(DECLARED_COLS[node[1]]):
+            t = relmodel.project(t, DECLARED_COLS[node[1]])  # the table offers more columns than the relation has
+        return t
+    if op in ("mat", "xfer", "tag", "proc", "cust"):
         return _sem_seq(node[1], env, prefer)
     if op == "chain":
         a, b = _sem_seq(node[1], env, prefer), _sem_seq(node[2], env, prefer)
@@ -541,7 +593,7 @@ def apply_lib_op(t, o, strict=False, count_mode=False):
     req = {c.qualified_name for c in o.columns_required}
     if not req <= t.cols:
         raise IllFormed(f"{o} requires {sorted(req - t.cols)} not in {sorted(t.cols)}")
-    if isinstance(o, Identity):
+    if isinstance(o, Identity) or (_USER_FILTER and isinstance(o, _USER_FILTER[0])):
         return t
     if isinstance(o, Calculation):
         if strict and o.tag.qualified_name in t.cols:
@@ -572,8 +624,10 @@ def pyeval(node, leafrows, bind, tags, prefer="l"):
     """Evaluate a program over concrete leaf rows (dict colname -> int) with ordinary Python."""
     op = node[0]
     if op == "leaf":
+        if node[1] in DECLARED_COLS:
+            return [{c: r[c] for c in DECLARED_COLS[node[1]]} for r in leafrows[node[1]]]
         return [dict(r) for r in leafrows[node[1]]]
-    if op in ("mat", "xfer", "tag", "proc"):
+    if op in ("mat", "xfer", "tag", "proc", "cust"):
         return pyeval(node[1], leafrows, bind, tags, prefer)
     if op == "chain":
         return pyeval(node[1], leafrows, bind, tags, prefer) + pyeval(node[2], leafrows, bind, tags, prefer)
@@ -649,6 +703,8 @@ def fmt(node):
         return f"{fmt(node[1])}.tag"
     if op == "proc":
         return f"{fmt(node[1])}.processed"
+    if op == "cust":
+        return f"{fmt(node[1])}.keepall"
     return repr(node)
 
 
@@ -713,7 +769,7 @@ def cols_of(node, leafcols):
     op = node[0]
     if op == "leaf":
         return frozenset(leafcols[node[1]])
-    if op in ("mat", "xfer", "tag", "proc"):
+    if op in ("mat", "xfer", "tag", "proc", "cust"):
         return cols_of(node[1], leafcols)
     if op == "chain":
         a, b = cols_of(node[1], leafcols), cols_of(node[2], leafcols)
@@ -791,7 +847,7 @@ def py_of_lib(e, row):
 def py_apply_lib_op(rows, o):
     from lsst.daf.relation import Calculation, Deduplication, Identity, Projection, Selection, Slice, Sort
 
-    if isinstance(o, Identity):
+    if isinstance(o, Identity) or (_USER_FILTER and isinstance(o, _USER_FILTER[0])):
         return rows
     if isinstance(o, Calculation):
         return [{**r, o.tag.qualified_name: py_of_lib(o.expression, r)} for r in rows]
